@@ -65,7 +65,20 @@ func init() {
 				}
 			}
 		}
-		for len(all) < n+700 {
+		// every single-crash placement again, with the chain moving on before the node comes back (a restart that
+		// re-reads the height must not re-anchor)
+		for _, role := range []string{"outSender", "inReceiver"} {
+			base := baseScript(role, "lbtc")
+			for i := range base {
+				for k := 1; k <= 9; k++ {
+					for _, blocks := range []string{"blocks lbtc 1", "blocks lbtc 60"} {
+						steps := cat(base[:i], []string{fmt.Sprintf("crash %d", k), base[i], blocks, "restart"}, base[i+1:], []string{"confirm"})
+						all = append(all, scn{role: role, steps: steps})
+					}
+				}
+			}
+		}
+		for len(all) < n+1000 {
 			role := []string{"outSender", "inReceiver"}[r.intn(2)]
 			steps := genScenario(r, role, r.intn(2) == 0)
 			if scnChain(steps) == "lbtc" {
